@@ -486,6 +486,22 @@ func (u *Unit) evalCall(env *Env, e *Expr) Val {
 		return &Scalar{T: Ite(Cmp("<=", a, b), a, b), Typ: types.Typ[types.Int]}
 	case "real":
 		return &Scalar{T: ToReal(u.evalTerm(env, args[0])), Typ: types.Typ[types.Float64]}
+	case "Includes":
+		// Includes(whole, part): see includesTerm
+		return &Scalar{T: u.includesTerm(u.evalTerm(env, args[0]), u.evalTerm(env, args[1])), Typ: types.Typ[types.Bool]}
+	case "KeepsText":
+		// KeepsText(x): x is a wrapper whose message includes the message of what it wraps — fmt's %w wrapper, or one
+		// of the library's own error types whose Error method is proved to (clause message_includes_cause). The
+		// inclusion is assumed here for this x.
+		x := u.evalTerm(env, args[0])
+		inner := App(SInt, "Unwrap", x)
+		var kinds []Term
+		for _, tn := range u.eng.textKeepingWrappers() {
+			kinds = append(kinds, Eq(App(SInt, "typeof", x), u.eng.typeIDName(tn)))
+		}
+		keeper := And(Not(Eq(x, TZero)), Not(Eq(inner, TZero)), Or(kinds...))
+		u.assume(TTrue, Implies(keeper, u.includesTerm(App(SInt, "ErrMsg", x), App(SInt, "ErrMsg", inner))))
+		return &Scalar{T: keeper, Typ: types.Typ[types.Bool]}
 	case "NatsConflict":
 		return &Scalar{T: u.catalogueMember(u.evalTerm(env, args[0]), "conflict"), Typ: types.Typ[types.Bool]}
 	case "NatsTransient":
